@@ -13,7 +13,24 @@ The model FOLLOWS THE CODE, including what the property does not want:
     has none; a REQUIRED proto3-optional field is dropped (it has a synthetic oneof and `oneof_fields()`
     skips synthetic oneofs);
   * `_parse_snippet_segments` leaves `REQUEST_EXECUTION.end` unset when no `# Handle the response`
-    line exists (void methods), and `RESPONSE_HANDLING.end` is always the number of lines.
+    line exists (void methods), and `RESPONSE_HANDLING.end` is always the number of lines;
+  * the sample CALLS `client.<snake(rpc)>` (`render_method_name`), while the metadata and the client use
+    `snake(client_method_name)` — they differ when the RPC name is a Python keyword (§6 below).
+Also modelled: sample ids / file names / function names (`_generate_samples_and_manifest`, sample.py.j2),
+the `parameters` list of `_fill_sample_metadata` (§6, §7).  `to_snake_case` and `fix_whitespace` are NOT
+hand-copied: the driver and the theorems instantiate the `snake` parameter with the machine-translated
+`Pinned.Funcs.to_snake_case`, and the harness runs `Pinned.Funcs.fix_whitespace` on the raw renders.
+
+NOT modelled (reached through T3 / the oracle only):
+  * Jinja rendering of sample.py.j2 / feature_fragments.j2 (request set-up text, calling-form text, imports,
+    `request_module_name` for requests of other packages, `render_request_attr`, resource-pattern blocks);
+  * the fact that segments are computed on the RAW render while the file is `fix_whitespace(raw)` (the model
+    takes the line list as a parameter; `segments_depend_only_on_kinds` says when the two agree);
+  * handwritten sample configs (`samples=` option: parse_handwritten_specs, Validator.validate_response and its
+    statement validators, `input_parameter`, `value_is_file`, resource-name requests `field%attr`), the
+    spec hash (sha256) used to disambiguate ids, `_fill_sample_metadata`'s result_type / full names
+    (compared with the imported client by the oracle), `SnippetIndex` bookkeeping and JSON sorting;
+  * `Field.mock_value_original_type` for message-typed fields (not used by default requests).
 No Mathlib.
 -/
 namespace GapicModel.Model.Samples
@@ -392,5 +409,53 @@ def buildT (b : List Char) (as : List (Option (List (List Char)) × Value)) : TR
 def transform (es : List Entry) : Except TErr (List TReq) := do
   let g ← groupEntries es []
   pure (g.map fun (b, as) => buildT b as)
+
+/-! ### 6. ids, file names, function and method names
+(`Generator._generate_samples_and_manifest`, sample.py.j2, feature_fragments.j2: render_method_name,
+`Method.client_method_name`, `_fill_sample_metadata`).  `snake` = `utils.to_snake_case`, `hash` = the 8 hex
+digits of the spec's sha256; both are parameters. -/
+
+/-- `spec["id"]`: the region tag, suffixed with `_<hash>` when several specs share it -/
+def sampleId (hash : Spec → List Char) (all : List Spec) (sp : Spec) : List Char :=
+  if (all.filter fun x => x.regionTag == sp.regionTag).length = 1 then sp.regionTag
+  else sp.regionTag ++ us ++ hash sp
+
+/-- `fpath = utils.to_snake_case(spec["id"]) + ".py"` -/
+def sampleFile (snake : List Char → List Char) (id : List Char) : List Char := snake id ++ ".py".toList
+
+/-- `def sample_{{ sample.rpc|snake_case|trim }}` (names have no surrounding blanks: `trim` is the identity) -/
+def sampleFunction (snake : List Char → List Char) (rpc : List Char) : List Char := "sample_".toList ++ snake rpc
+
+def lowerAscii (s : List Char) : List Char :=
+  s.map fun c => if 'A' ≤ c ∧ c ≤ 'Z' then Char.ofNat (c.toNat + 32) else c
+
+/-- `Method.client_method_name`: `name + "_"` if `name.lower()` is a keyword; `make_private` if internal -/
+def clientMethodName (kw : List (List Char)) (rpc : List Char) (internal : Bool) : List Char :=
+  let n := if kw.contains (lowerAscii rpc) then rpc ++ us else rpc
+  if internal then (if us.isPrefixOf n then n else us ++ n) else n
+
+/-- `snippet_metadata.client_method.short_name` — also the name of the method the client class has -/
+def metadataMethod (snake : List Char → List Char) (kw : List (List Char)) (rpc : List Char) (internal : Bool) : List Char :=
+  snake (clientMethodName kw rpc internal)
+
+/-- `render_method_name`: what the sample calls on the client -/
+def calledMethod (snake : List Char → List Char) (rpc : List Char) (internal : Bool) : List Char :=
+  (if internal then us else []) ++ snake rpc
+
+/-! ### 7. `parameters` of the metadata entry (`_fill_sample_metadata`) -/
+
+structure Param where
+  name : List Char
+  type : List Char
+deriving Repr, DecidableEq
+
+def tailParams : List Param :=
+  [⟨"retry".toList, "google.api_core.retry.Retry".toList⟩, ⟨"timeout".toList, "float".toList⟩,
+   ⟨"metadata".toList, "Sequence[Tuple[str, Union[str, bytes]]]".toList⟩]
+
+/-- `inputType` = `method.input.ident.sphinx`; `flattened` = `method.flattened_fields.values()` as (name, sphinx type) -/
+def metadataParams (clientStreaming : Bool) (inputType : List Char) (flattened : List Param) : List Param :=
+  (if clientStreaming then [⟨"requests".toList, "Iterator[".toList ++ inputType ++ "]".toList⟩]
+   else ⟨"request".toList, inputType⟩ :: flattened) ++ tailParams
 
 end GapicModel.Model.Samples
